@@ -129,4 +129,44 @@ def assetLookup (kind : Str) (specified : Option Str) (containing : Option (List
     | none => none
     | some fs => some ((fs.find? (·.2)).map fun fb => .inr fb.1)
 
+/-! ### the `Assets` object: a listing taken once and a cache of answers -/
+
+abbrev AssetAnswer := Option (Sum Str Str)
+
+/-- `Assets` after `__init__`: `_dirlist` (read once) and `_cache` (most recent entry first) -/
+structure AssetsObj where
+  dirlist : List Str
+  cache : List (Str × AssetAnswer)
+deriving Repr
+
+/-- what the simfile and the filesystem say at the moment a property is asked for -/
+structure AskEnv where
+  specified : Option Str
+  containing : Option (List Str)
+  file : Str
+deriving Repr
+
+def AssetsObj.fresh (dirlist : List Str) : AssetsObj := { dirlist := dirlist, cache := [] }
+
+/-- one `_asset_property(kind)` call: the cached answer if there is one, else the lookup, cached.
+`none` = the kind is outside the modelled fragment -/
+def AssetsObj.ask (a : AssetsObj) (kind : Str) (env : AskEnv) : Option (AssetsObj × AssetAnswer) :=
+  match a.cache.find? (·.1 = kind) with
+  | some kv => some (a, kv.2)
+  | none =>
+    match assetLookup kind env.specified env.containing env.file a.dirlist with
+    | none => none
+    | some v => some ({ a with cache := (kind, v) :: a.cache }, v)
+
+/-- a session: the same object asked a sequence of questions -/
+def AssetsObj.run (a : AssetsObj) : List (Str × AskEnv) → Option (AssetsObj × List AssetAnswer)
+  | [] => some (a, [])
+  | (k, env) :: rest =>
+    match a.ask k env with
+    | none => none
+    | some (a', v) =>
+      match a'.run rest with
+      | none => none
+      | some (a'', vs) => some (a'', v :: vs)
+
 end Simfile
